@@ -161,7 +161,7 @@ func (h *HashMapOfValue) LaxEqual(thread *Thread, other value.Value) (bool, valu
 	switch o := other.SafeAsReference().(type) {
 	case *HashMapOfValue:
 		return HashMapOfValueLaxEqual(thread, h, o)
-	case HashMap:
+	case HashRecord:
 		return HashMapOfValueLaxEqualInterface(thread, h, o)
 	}
 
